@@ -100,6 +100,7 @@ def run(ctx) -> int:
     drv.d2_move_aborts(ctx, WHICH, NT, 8 if ctx.thorough else 6, do_model=ctx.thorough)
     ctx.exhaustive.append("minimize-balanced + move: every verdict sequence of <= 6/8 tests on two bracketed files followed by an abort")
     drv.d2_touching_test(ctx, WHICH, 600 if ctx.thorough else 150)
+    drv.d2_vanishing_file(ctx, WHICH, 300 if ctx.thorough else 60)
     if ctx.thorough:
         sigkill_runs(ctx, 18)
     return common.decide(ctx, proof, RULE, search=search,
